@@ -171,6 +171,58 @@ def keyPairFromStdKey (p : Bytes) : Res (Bytes × Bytes) :=
 /-- `PrivKeyToStdKey`. -/
 def privKeyToStdKey (k : Bytes) : Bytes := k
 
+/-! ### crypto.Key.Equals -/
+
+/-- A `crypto.Key` as `Equals` sees it: the protobuf key type (`Type()`) and the raw bytes
+(`Raw()`). An Ed25519 private key is `⟨1, 64 bytes⟩`, a public key `⟨1, 32 bytes⟩`. -/
+structure KeyVal where
+  typ : Int
+  raw : Bytes
+deriving Repr, DecidableEq
+
+/-- `k.Equals(o)` for `*Ed25519PrivateKey` / `*Ed25519PublicKey` receivers. `none` = a nil
+interface or a nil key pointer (compares unequal; before the fix `basicEquals` dereferenced it).
+Same Go type: `subtle.ConstantTimeCompare` / `bytes.Equal` of the raw keys; any other
+implementation: `basicEquals` = same `Type()` and same raw bytes. Two Ed25519 keys have the same
+`Type()`, so both paths are "type and raw bytes agree". -/
+def keyEquals (k : KeyVal) (o : Option KeyVal) : Bool :=
+  match o with
+  | none => false
+  | some o => k.typ = o.typ && ctEq k.raw o.raw
+
+/-! ### key generation -/
+
+/-- `crypto.GenerateKeyPairWithReader(typ, bits, src)` / `GenerateEd25519Key(src)`: `src` = the
+bytes the reader can deliver before it ends or fails. `ed25519.GenerateKey` reads exactly 32 bytes
+with `io.ReadFull` (fewer ⇒ error) and returns `NewKeyFromSeed` of them. Result `(priv, pub)`. -/
+def generateKeyPair (pubOf : Bytes → Bytes) (typ : Int) (src : Bytes) : Res (Bytes × Bytes) :=
+  if typ ≠ keyTypeEd25519 then .err
+  else if src.length < 32 then .err
+  else .ok (genKey pubOf (src.take 32), pubOf (src.take 32))
+
+/-! ### marshalling a key that may be nil
+
+`keypem.ParsePrivKeyPem` / `ParsePubKeyPem` / `confparse.ParsePrivateKeyPEM("")` return
+`(nil, nil)`; a caller that marshals that result back hands a nil key to these functions.
+After the fix `crypto.MarshalPrivateKey(nil)` / `MarshalPublicKey(nil)` return an error (before:
+nil dereference in `k.Raw()`), and so do the PEM wrappers built on them; the base58 config
+wrappers return the empty string for an absent key. -/
+
+/-- `crypto.MarshalPrivateKey(k)`; `none` = nil. -/
+def marshalPrivateKeyOpt : Option Bytes → Res Bytes
+  | none => .err
+  | some k => .ok (marshalPrivateKey k)
+
+/-- `crypto.MarshalPublicKey(k)`. -/
+def marshalPublicKeyOpt : Option Bytes → Res Bytes
+  | none => .err
+  | some p => .ok (marshalPublicKey p)
+
+/-- The same functions BEFORE the fix: `k.Raw()` on a nil interface panics. -/
+def marshalKeyOptPreFix (enc : Bytes → Bytes) : Option Bytes → Res Bytes
+  | none => .panic
+  | some k => .ok (enc k)
+
 /-! ### PEM (encoding/pem is a parameter) -/
 
 /-- `encoding/pem`: `encode type bytes` = `pem.EncodeToMemory` of a header-less block;
@@ -226,6 +278,20 @@ def parsePubKeyPem (P : PemCodec) (d : Bytes) : Res (Option Bytes) :=
 def marshalPrivKeyPem (P : PemCodec) (k : Bytes) : Bytes := P.encode privPemType (marshalPrivateKey k)
 def marshalPubKeyPem (P : PemCodec) (p : Bytes) : Bytes := P.encode pubPemType (marshalPublicKey p)
 
+/-- `keypem.MarshalPrivKeyPem(k)` = `confparse.MarshalPrivateKeyPEM(k)`; `none` = nil key. -/
+def marshalPrivKeyPemOpt (P : PemCodec) (k : Option Bytes) : Res Bytes :=
+  match marshalPrivateKeyOpt k with
+  | .ok dat => .ok (P.encode privPemType dat)
+  | .err => .err
+  | .panic => .panic
+
+/-- `keypem.MarshalPubKeyPem(k)` = `confparse.MarshalPublicKeyPEM(k)`. -/
+def marshalPubKeyPemOpt (P : PemCodec) (p : Option Bytes) : Res Bytes :=
+  match marshalPublicKeyOpt p with
+  | .ok dat => .ok (P.encode pubPemType dat)
+  | .err => .err
+  | .panic => .panic
+
 /-! ### util/confparse keys -/
 
 /-- `confparse.ParsePrivateKeyPEM`. -/
@@ -272,6 +338,16 @@ def parsePublicKey (P : PemCodec) (s : Bytes) : Res (Option Bytes) :=
 def confMarshalPrivateKey (k : Bytes) : Bytes := B58.encode (marshalPrivateKey k)
 /-- `confparse.MarshalPublicKey`. -/
 def confMarshalPublicKey (p : Bytes) : Bytes := B58.encode (marshalPublicKey p)
+
+/-- `confparse.MarshalPrivateKey(key)` for a key that may be nil: nil ⇒ `("", nil)`. -/
+def confMarshalPrivateKeyOpt : Option Bytes → Res Bytes
+  | none => .ok []
+  | some k => .ok (confMarshalPrivateKey k)
+
+/-- `confparse.MarshalPublicKey(key)`. -/
+def confMarshalPublicKeyOpt : Option Bytes → Res Bytes
+  | none => .ok []
+  | some p => .ok (confMarshalPublicKey p)
 
 /-! ### protocol IDs -/
 
@@ -342,6 +418,12 @@ def parsePeerIdsUniqueLoop : List Bytes → Bool → List Bytes → Option (List
 
 def parsePeerIdsUnique (l : List Bytes) (allowEmpty : Bool) : Option (List Bytes) :=
   parsePeerIdsUniqueLoop l allowEmpty []
+
+/-- `confparse.ValidatePeerID(id) == nil`: parses, and is not the empty ID. -/
+def validatePeerId (s : Bytes) : Bool :=
+  match parsePeerId s with
+  | none => false
+  | some pid => !pid.isEmpty
 
 /-! ### confparse.ParsePeer / ValidatePubKey -/
 
@@ -455,6 +537,29 @@ def parsePeerAddressMap (l : List Bytes) : List (Bytes × List Bytes) × Nat :=
   let r := peerAddrLoop l [] 0
   (r.1.map (fun kv => (kv.1, compact (sortStrings kv.2))), r.2)
 
+/-! ### the static address controller (consumer of the map) -/
+
+/-- `c.peers[key]`: the slice stored under `key`, `[]` (nil slice) if the key is absent. -/
+def mapLookup (m : List (Bytes × List Bytes)) (key : Bytes) : List Bytes :=
+  match m.find? (fun kv => kv.1 = key) with
+  | some kv => kv.2
+  | none => []
+
+/-- `tptaddr_static.NewController(conf)`: the peers map, `none` = error (the first parse error
+is returned when any entry of the list is malformed). -/
+def newStaticController (l : List Bytes) : Option (List (Bytes × List Bytes)) :=
+  let r := parsePeerAddressMap l
+  if r.2 ≠ 0 then none else some r.1
+
+/-- `(*Config).Validate() == nil`. -/
+def staticConfigValid (l : List Bytes) : Bool := (parsePeerAddressMap l).2 = 0
+
+/-- `resolveLookupTptAddr` for a `LookupTptAddr` directive with target peer `pid` (raw ID
+bytes): the values the returned resolver emits, in order; `[]` = no resolver is returned.
+The map is keyed by the base58 text of the ID (`targetPeerID.String()`). -/
+def resolveLookup (m : List (Bytes × List Bytes)) (pid : Bytes) : List Bytes :=
+  mapLookup m (idB58Encode pid)
+
 /-! ### wrappers around standard-library parsers -/
 
 /-- `confparse.ParseDuration` around `time.ParseDuration` (`none` = error). -/
@@ -560,6 +665,146 @@ def openOrWritePreFix (P : PemCodec) (gen : Option Bytes) (writeOk : Bool) (fs :
     | .err => .ok (⟨none, true⟩, fs)
     | .panic => .panic
   | _ => openOrWrite P gen writeOk fs
+
+/-! ### read-only uses of a key file / key text (callers of the PEM parsers)
+
+`cli/util/util.go` (`read-private`, `read-public`, `derive-public`, `derive-ssh-public`),
+`daemon/api/api_pubsub_subscribe.go` (`priv_key_pem` of a Subscribe request) — read-only: after the
+fixes none of them draws a random key or writes a file — and the two callers of
+`keyfile.OpenOrWritePrivKey`: `cli/envelope.go` (`loadPubKeys`, `loadPrivKeys`) and
+`cmd/bifrost/cmd_daemon.go` (`runDaemon`), for which a missing path means "generate, write, use". -/
+
+/-- `os.ReadFile(path)`: the content, `none` = error (missing, unreadable, a directory). -/
+def readFile : FsState → Option Bytes
+  | .file b => some b
+  | _ => none
+
+/-- `peer.NewPeer(key)` for a non-nil key. -/
+def newPeer (k : Bytes) : Res PeerInfo :=
+  match getPublic k with
+  | .ok p => .ok ⟨some k, p, idFromPublicKey p⟩
+  | .err => .err
+  | .panic => .panic
+
+/-- The identity a PEM text yields where a PRIVATE key is required: `keypem.ParsePrivKeyPem`,
+"no PEM block" (`(nil, nil)`) is an error, then `peer.NewPeer(key)`.
+= `cliutil.readInputFilePrivKey` on the file content = the `priv_key_pem` branch of `API.Subscribe`. -/
+def privPeerOfPem (P : PemCodec) (b : Bytes) : Res PeerInfo :=
+  match parsePrivKeyPem P b with
+  | .ok (some k) => newPeer k
+  | .ok none => .err
+  | .err => .err
+  | .panic => .panic
+
+/-- `UtilArgs.readInputFilePrivKey` with `FilePath` set. -/
+def readPrivPeer (P : PemCodec) (fs : FsState) : Res PeerInfo :=
+  match readFile fs with
+  | none => .err
+  | some b => privPeerOfPem P b
+
+/-- `UtilArgs.readInputFilePubKey`: `keypem.ParsePubKeyPem` (accepts a private or a public key
+PEM), "no PEM block" is an error, then `peer.NewPeerWithPubKey`. -/
+def readPubPeer (P : PemCodec) (fs : FsState) : Res PeerInfo :=
+  match readFile fs with
+  | none => .err
+  | some b =>
+    match parsePubKeyPem P b with
+    | .ok (some p) => .ok ⟨none, p, idFromPublicKey p⟩
+    | .ok none => .err
+    | .err => .err
+    | .panic => .panic
+
+/-- BEFORE the fix: `readInputFilePrivKey` passed the `(nil, nil)` of `ParsePrivKeyPem` to
+`peer.NewPeer(nil)`, which GENERATES a key (`gen` = the random draw, `none` = the random source
+failed): the command printed the identity of a key that exists nowhere. -/
+def readPrivPeerPreFix (P : PemCodec) (gen : Option Bytes) (fs : FsState) : Res PeerInfo :=
+  match readFile fs with
+  | none => .err
+  | some b =>
+    match parsePrivKeyPem P b with
+    | .ok (some k) => newPeer k
+    | .ok none =>
+      match gen with
+      | none => .err
+      | some k => newPeer k
+    | .err => .err
+    | .panic => .panic
+
+/-- BEFORE the fix: `API.Subscribe` did the same and then called `peer.IDFromPrivateKey(nil)`:
+nil dereference (remote-triggerable panic of the daemon's API handler). -/
+def subscribePeerPreFix (P : PemCodec) (gen : Option Bytes) (b : Bytes) : Res PeerInfo :=
+  match parsePrivKeyPem P b with
+  | .ok (some k) => newPeer k
+  | .ok none =>
+    match gen with
+    | none => .err
+    | some _ => .panic
+  | .err => .err
+  | .panic => .panic
+
+/-- BEFORE the fix: `readInputFilePubKey` passed a nil key to `peer.NewPeerWithPubKey`, which
+dereferenced it in `crypto.MarshalPublicKey`. -/
+def readPubPeerPreFix (P : PemCodec) (fs : FsState) : Res PeerInfo :=
+  match readFile fs with
+  | none => .err
+  | some b =>
+    match parsePubKeyPem P b with
+    | .ok (some p) => .ok ⟨none, p, idFromPublicKey p⟩
+    | .ok none => .panic
+    | .err => .err
+    | .panic => .panic
+
+/-- One path of `EnvelopeArgs.loadPubKeys` (`envelope seal`), as the code is:
+`priv, err := keyfile.OpenOrWritePrivKey(le, path); if err != nil { return … }; keys = append(keys, priv.GetPublic())`.
+A path that does not exist gets a NEW key (generated, written, used). Result: the public key, and
+the state of the path afterwards. -/
+def loadPubKey (P : PemCodec) (gen : Option Bytes) (writeOk : Bool) (fs : FsState) : Res Bytes × FsState :=
+  match openOrWrite P gen writeOk fs with
+  | .ok (r, fs') =>
+    if r.err then (.err, fs')
+    else match r.key with
+      | some k =>
+        (match getPublic k with
+         | .ok p => .ok p
+         | .err => .err
+         | .panic => .panic, fs')
+      | none => (.panic, fs')          -- priv.GetPublic() on a nil key
+  | .err => (.err, fs)
+  | .panic => (.panic, fs)
+
+/-- One path of `EnvelopeArgs.loadPrivKeys` (`envelope unseal`), as the code is: `OpenOrWritePrivKey`;
+on an error the file is read again and parsed with `keypem.ParsePrivKeyPem` (a key there would still
+be used), otherwise the first error is returned. -/
+def loadPrivKey (P : PemCodec) (gen : Option Bytes) (writeOk : Bool) (fs : FsState) : Res Bytes × FsState :=
+  match openOrWrite P gen writeOk fs with
+  | .ok (r, fs') =>
+    if r.err then
+      match readFile fs' with
+      | none => (.err, fs')
+      | some b =>
+        match parsePrivKeyPem P b with
+        | .ok (some k) => (.ok k, fs')
+        | .ok none => (.err, fs')
+        | .err => (.err, fs')
+        | .panic => (.panic, fs')
+    else match r.key with
+      | some k => (.ok k, fs')
+      | none => (.panic, fs')          -- a nil key is appended and dereferenced by UnlockEnvelope
+  | .err => (.err, fs)
+  | .panic => (.panic, fs)
+
+/-- `runDaemon`: `peerPriv, err := keyfile.OpenOrWritePrivKey(le, path); if err != nil { return err }`,
+then `daemon.NewDaemon(ctx, peerPriv, …)` runs under the identity of `peerPriv`.
+Result: the key the daemon runs under (`err` = the daemon does not start), and the path afterwards. -/
+def daemonKey (P : PemCodec) (gen : Option Bytes) (writeOk : Bool) (fs : FsState) : Res Bytes × FsState :=
+  match openOrWrite P gen writeOk fs with
+  | .ok (r, fs') =>
+    if r.err then (.err, fs')
+    else match r.key with
+      | some k => (.ok k, fs')
+      | none => (.panic, fs')          -- peer.IDFromPrivateKey(nil) in NewDaemon
+  | .err => (.err, fs)
+  | .panic => (.panic, fs)
 
 end Config
 end Bifrost
